@@ -33,7 +33,7 @@ pub static DEF: CheckDef = CheckDef {
 };
 
 fn families(t: Tier) -> Vec<(&'static str, u64)> {
-    vec![("history", t.n(15_000, 300_000)), ("untracked-then-tracked", t.n(4_000, 80_000))]
+    vec![("history", t.n(15_000, 900_000)), ("untracked-then-tracked", t.n(4_000, 240_000))]
 }
 fn floors(_t: Tier) -> Vec<(&'static str, u64)> {
     vec![
